@@ -5,6 +5,7 @@ YAML Path processor based on ruamel.yaml.
 Copyright 2018, 2019, 2020, 2021, 2022 William W. Kimball, Jr. MBA MSIS
 """
 from collections import OrderedDict
+from copy import copy
 from typing import Any, Dict, Generator, List, Union
 
 from ruamel.yaml.compat import ordereddict as ryod
@@ -1688,8 +1689,15 @@ class Processor:
             if append_node:
                 updated_coords.append(deepest_lhs)
                 rem_idx += 1
+        # Remove the subtracted pairs from copies of the collected Hashes;
+        # the Hashes of the document itself must not change.
+        copied_coords: Dict[int, bool] = {}
         for idx, key in rem_dels:
-            del updated_coords[idx].deepest_node_coord.node[key]
+            result_coord = updated_coords[idx].deepest_node_coord
+            if id(result_coord) not in copied_coords:
+                result_coord.node = copy(result_coord.node)
+                copied_coords[id(result_coord)] = True
+            del result_coord.node[key]
 
         self.logger.debug((
             "Resulting data:"),
